@@ -476,9 +476,23 @@ def search(ctx):
                 nsh = [shared, Uniform(1.3, 1.7, guess=float(rng.uniform(1.4, 1.6)))]
                 rsh = [pr(0.2, 0.4, name_r), pr(0.2, 0.4, [None, "r"][rng.integers(0, 2)])]
                 two = rng.random() < 0.6
+                # the container of a place is the user's choice (list or tuple), and a later member's place may hold ONLY priors
+                # that were met before (a second sphere at a fixed offset from the first): scheduled, not drawn
+                cont = [list, tuple][i % 2]
+                reuse = (i % 4) >= 2
+                c0 = [pr(0, 1), 0.0, pr(5, 10)]
+
+                def centre(j):
+                    if j == 0:
+                        return cont(c0)
+                    if reuse and j == 1:
+                        return cont([c0[0], 0.0, c0[2] + 1.1])
+                    if reuse and j == 2:
+                        return cont([c0[0], c0[0], c0[2]])
+                    return cont([pr(2 * j, 2 * j + 1), 0.0, pr(5, 10)])
                 sc = Spheres([Sphere(n=(nsh[int(rng.integers(0, 2)) if two else 0]) if rng.random() < 0.8 else 1.5,
                                      r=(rsh[int(rng.integers(0, 2)) if two else 0]) if rng.random() < 0.7 else pr(0.2, 0.4, name_r),
-                                     center=[pr(2 * j, 2 * j + 1), 0.0, pr(5, 10)]) for j in range(m)], warn=False)
+                                     center=centre(j)) for j in range(m)], warn=False)
             alpha = pr(0.5, 1.0, [None, "alpha", "a"][rng.integers(0, 3)])
             theory = MieLens(lens_angle=pr(0.5, 1.0)) if (kind == 0 and rng.random() < 0.4) else Mie()
             model = AlphaModel(sc, alpha=alpha, medium_index=1.33, illum_wavelen=0.66, illum_polarization=(1, 0), theory=theory, noise_sd=0.1)
@@ -537,6 +551,8 @@ def search(ctx):
                     break
 
             def expect(o):
+                if isinstance(o, TransformedPrior):
+                    return o.transformation(*[expect(b) for b in o.base_prior])
                 if isinstance(o, Prior):
                     return byid[key(o)]
                 if isinstance(o, (list, tuple, np.ndarray)):
